@@ -1,9 +1,60 @@
-(* C11 (preliminary; theorems added below as they are proved) *)
+(* C11 The connect reply is the first server message; dictionary-compression encoder life cycle.
+   Property theorems only; proofs in Proofs/Connect.v.  Model: Model/Connect.v (one
+   connection: connect thread, pushes reaching the client through the hub, the writer
+   goroutine with Encode as a two-step action, direct ReplyWithoutQueue writes, close() in
+   four steps).  All theorems quantify over ALL schedules (lists of labels).
+
+   Flags: cc_fix_hub = false / cc_fix_lock = false is the code as it stands.
+   cc_fix_hub = true  -- nothing can address the connection inside the window between
+        addClient and the connect reply (the proposed patch; equivalently: the code as it
+        stands restricted to schedules with no push in that window);
+   cc_fix_lock = true -- CloseDictionaryCompression runs under the write mutex (proposed patch). *)
 From Coq Require Import List NArith Bool.
-From Cfg Require Import Model.Connect.
+From Cfg Require Import Model.Connect Proofs.Connect.
 Import ListNotations.
 
-Example C11_smoke :
-  option_map wlog (crun (mkCC false true false false) cinit [AConnAdd; AConnReply; AWBegin; AWEnd; APush; AWBegin; AWEnd])
-  = Some [WRaw IConn; WEnc IPush].
+(* the first frame on the wire is never an encoded one: every configuration, every schedule *)
+Theorem C11_first_frame_raw : forall c ls s, crun c cinit ls = Some s -> head_raw (wlog s).
+Proof. exact c11_first_frame_raw. Qed.
+Print Assumptions C11_first_frame_raw.
+
+(* the connect reply is the first message -- queue mode, no push inside the window.
+   PARTIAL w.r.t. the property text: the property quantifies over node-level sends /
+   subscribes / publications racing the connect, which is exactly the window excluded here
+   (see the refutation below); ReplyWithoutQueue is not covered by this theorem. *)
+Theorem C11_connect_first_partial : forall c ls s,
+  cc_rwq c = false -> cc_fix_hub c = true -> crun c cinit ls = Some s -> conn_first (wlog s) = true.
+Proof. exact c11_connect_first. Qed.
+Print Assumptions C11_connect_first_partial.
+
+(* REFUTED for the code as it stands: a push accepted inside the window is written first
+   (raw) and the connect reply is then written ENCODED *)
+Theorem C11_connect_first_refuted :
+  exists s, crun (mkCC false true false false) cinit sched_window = Some s /\
+            conn_first (wlog s) = false /\ conn_raw (wlog s) = false.
+Proof. exact c11_connect_first_refuted. Qed.
+Print Assumptions C11_connect_first_refuted.
+
+(* encoder call log: Close at most once, never while an Encode is running, no Encode after
+   it -- in queue mode as the code stands, and in every mode with the write-mutex patch *)
+Theorem C11_encoder_lifecycle : forall c ls s,
+  (cc_rwq c = false \/ cc_fix_lock c = true) -> crun c cinit ls = Some s -> elog_ok 0 false (elog s) = true.
+Proof. exact c11_encoder_lifecycle. Qed.
+Print Assumptions C11_encoder_lifecycle.
+
+(* REFUTED with ReplyWithoutQueue as the code stands: Close during Encode *)
+Theorem C11_encoder_refuted :
+  exists s, crun (mkCC true true false false) cinit sched_close_encode = Some s /\
+            elog_ok 0 false (elog s) = false.
+Proof. exact c11_encoder_refuted. Qed.
+Print Assumptions C11_encoder_refuted.
+
+(* not proved (checked by the oracle on the implementation only): "every frame after the
+   connect reply goes through the encoder" (rest_encoded) and "Close exactly once". *)
+
+Example C11_reachable :
+  option_map (fun s => (wlog s, elog s))
+    (crun (mkCC false true false false) cinit
+       [AConnAdd; AConnReply; AWBegin; AWEnd; APush; AWBegin; AWEnd; AKFlag; AKWriter; AKDict; AKDone])
+  = Some ([WRaw IConn; WEnc IPush], [EBegin; EEnd; EClose]).
 Proof. vm_compute. reflexivity. Qed.
